@@ -64,12 +64,11 @@ theorem ts_enc_decide (arch tsRef tsLast hdr : Nat) (m : Fit.Wire.WMsg) :
   have h32 : ∀ t : Nat, t % 32 % 256 = t % 32 := by intro t; omega
   simp only [Go.encoder.compressTimestampIntoHeader_decide, Fit.Wire.compressTs, Fit.Wire.u32Invalid, Fit.Wire.dateTimeMin, id_run, id_pure, id_bind, and31, h32]
   generalize Fit.Wire.encTsOf arch m = ts
-  by_cases h1 : ts = 4294967295
-  · simp [h1]
-  · by_cases h2 : ts < 268435456
-    · simp [h1, h2]
-    · by_cases h3 : (ts + 2 ^ 32 - tsRef) % 2 ^ 32 > 31 ∨ (ts + 2 ^ 32 - tsLast) % 2 ^ 32 > 31
-      · simp [h1, h2, h3]
-      · simp [h1, h2, h3]
+  by_cases h1 : ts = 4294967295 <;> by_cases h2 : ts < 268435456 <;>
+    by_cases h3 : (ts + 2 ^ 32 - tsRef) % 2 ^ 32 > 31 <;> by_cases h4 : (ts + 2 ^ 32 - tsLast) % 2 ^ 32 > 31 <;>
+    first
+    | omega
+    | (simp [h1, h2, h3, h4, Nat.or_comm]; done)
+    | (subst h1; simp [h3, h4, Nat.or_comm]; done)
 
 end Fit.Go2Lean
